@@ -450,6 +450,20 @@ func runC13(c *mon.Ctx) {
 					w.delHeader("Content-Type")
 					return true
 				},
+				// an escape of half a surrogate pair denotes no character: the canonical form drops it, so the body with and
+				// without it would share a signature although they are different texts (and decode differently)
+				"body-lone-surrogate-escape-inserted": func(w *wireReq) bool {
+					if body == nil || body.K != ref.Obj || len(body.O) == 0 {
+						return false
+					}
+					i := bytes.IndexByte(w.body, '"')
+					if i < 0 {
+						return false
+					}
+					esc := gen.Pick(tr, []string{`\ud800`, `\udc00`, `\uDBFF`})
+					w.body = append(append(append([]byte{}, w.body[:i+1]...), esc...), w.body[i+1:]...)
+					return true
+				},
 				"body-not-utf8": func(w *wireReq) bool {
 					if body == nil {
 						return false
